@@ -158,11 +158,12 @@ def _consume(gen_, mode, j, frames, on_frame=None):
             if on_frame is not None:
                 on_frame(len(frames) - 1)
         return True
-    # abandon after j frames
-    for d in gen_:
-        frames.append(d)
-        if len(frames) >= j:
-            break
+    # abandon after j frames (j == 0: the generator is never started)
+    if j > 0:
+        for d in gen_:
+            frames.append(d)
+            if len(frames) >= j:
+                break
     if mode == "close":
         gen_.close()
     return False
@@ -325,7 +326,9 @@ def judge(trace, rec):
             cause = type(exc.__cause__).__name__ if exc.__cause__ is not None else None
             out.append(_v("wrong_exception", f"{et} escaped from {api}: {str(exc)[:160]}", trace, f"{et}/{cause}"))
     else:
-        if not sel:
+        cons = trace.get("consume", ["exhaust", 0])
+        never_started = api == "load_many" and cons[0] in ("close", "drop") and cons[1] == 0
+        if not sel and not never_started:  # (a generator that is never started cannot report anything)
             out.append(_v("missing_error", "load succeeded although no format module is selectable", trace))
     if rec["lit"] is not None and rec["nopen"] == 1:
         lineno, nstack = rec["lit"]
